@@ -281,7 +281,7 @@ pub fn run(ctx: &Ctx) -> (Report, String) {
     if ctx.is_main() {
         let m = ctx.scale_pct;
         rep.require("headers_matched", if thorough { 40_000_000 } else { 3_000_000 } * m / 100);
-        for k in ["sweep:sor-custom8", "sweep:ptype-lowbits", "sweep:opptype-bits", "sweep:cpfmt", "sweep:par", "sweep:cpcfc-etr", "sweep:uui-sss", "sweep:layers", "sweep:rps", "sweep:pb", "inheritance_pairs", "marker_flips_rejected", "decoded_picture_header_checked", "decoded_picture_header_checked_in_history", "sweep:pei-ladder", "header_chains_completed", "chain:ufep0-after-baseline-with-modes", "chain:ufep0-after-ufep0-with-modes", "chain:ufep0-at-depth-3", "decoded_without_restated_format", "decoded_without_restated_format_twice_in_a_row"] {
+        for k in ["sweep:sor-custom8", "sweep:ptype-lowbits", "sweep:opptype-bits", "sweep:cpfmt", "sweep:par", "sweep:cpcfc-etr", "sweep:uui-sss", "sweep:layers", "sweep:rps", "sweep:pb", "inheritance_pairs", "marker_flips_rejected", "decoded_picture_header_checked", "decoded_picture_header_checked_in_history", "sweep:pei-ladder", "gob_probes_ok", "header_chains_completed", "chain:ufep0-after-baseline-with-modes", "chain:ufep0-after-ufep0-with-modes", "chain:ufep0-at-depth-3", "decoded_without_restated_format", "decoded_without_restated_format_twice_in_a_row"] {
             rep.require(k, if k == "sweep:pei-ladder" { 20 } else { 40 });
         }
         {
@@ -703,12 +703,86 @@ fn shard(ctx: &Ctx, s: usize, n_random: u64, thorough: bool, rep: &mut Report) {
             }
         }
     }
+    // ---- the GOB / picture start-code probe: "a picture starts here" must leave the reader where it was ----
+    if s == 59 {
+        set("gob probe");
+        for i in 0..ctx.n(400, 8000) {
+            let mut w = BitWriter::new();
+            let lead = rng.below(8) as u32; // bits before the stuffing that are consumed first
+            if lead > 0 {
+                w.put(rng.below(1 << lead) as u32, lead);
+            }
+            // zero stuffing up to the next byte boundary, then the start code
+            let stuffing = (8 - (lead % 8)) % 8;
+            w.put(0, stuffing);
+            let kind = i % 3;
+            let hdr = random_std(&mut rng, i % 2 == 0);
+            match kind {
+                0 => {
+                    hdr.encode(&mut w, false, &Inherited::default());
+                }
+                1 => {
+                    w.put(1, 17);
+                    w.put(1 + rng.below(14) as u32, 5); // group numbers 1..14: GOB headers (not implemented)
+                    w.put(rng.below(1 << 16) as u32, 16);
+                }
+                _ => {
+                    w.put(0x5a5a5 | 0x80000, 20); // no start code within reach
+                    w.put(rng.below(1 << 16) as u32, 16);
+                }
+            }
+            let (bytes, _) = finish(w);
+            rep.evaluations += 1;
+            let r = catch(|| {
+                let mut rd = H263Reader::from_source(&bytes[..]);
+                if lead > 0 {
+                    let _: u32 = rd.read_bits(lead).unwrap();
+                }
+                let p0 = rd.verif_position().0;
+                let g = h263_rs::parser::decode_gob(&mut rd, sut::options(false, false));
+                let p1 = rd.verif_position().0;
+                let shape = match &g {
+                    Ok(None) => "picture".to_string(),
+                    Ok(Some(_)) => "gob".to_string(),
+                    Err(e) => sut::err_kind(e),
+                };
+                // after "a picture starts here" the picture header must parse from the same reader
+                let follow = if kind == 0 { Some(matches!(decode_picture(&mut rd, sut::options(false, false), None), Ok(Some(_)))) } else { None };
+                (p0, p1, shape, follow)
+            });
+            match r {
+                Err(p) => rep.violation(format!("panic@{}", p.loc), format!("GOB probe panicked: {} on {}", p.msg, hex(&bytes)), coords()),
+                Ok((p0, p1, shape, follow)) => {
+                    let want = ["picture", "UnimplementedDecoding", "InvalidGobHeader"][kind as usize];
+                    if shape != want {
+                        rep.violation(format!("gob-probe/answer/{}", want), format!("{} stuffing bits then {}: the probe answered {} on {}", stuffing, ["a picture start code", "a GOB start code", "no start code"][kind as usize], shape, hex(&bytes[..bytes.len().min(16)])), coords());
+                    } else if p1 != p0 {
+                        rep.violation(format!("gob-probe/position/{}", want), format!("the probe answered {} and moved the reader from bit {} to bit {} on {}", shape, p0, p1, hex(&bytes[..bytes.len().min(16)])), coords());
+                    } else if follow == Some(false) {
+                        rep.violation("gob-probe/picture-header-after-probe", format!("after the probe said a picture starts here the picture header did not parse: {}", hex(&bytes[..bytes.len().min(16)])), coords());
+                    } else {
+                        rep.count("gob_probes_ok");
+                        rep.count(&format!("gob_probe:{}:stuffing={}", want, stuffing));
+                        rep.distinct.insert(fnv64(&bytes));
+                    }
+                }
+            }
+        }
+    }
     // ---- a decoded picture reports the header it was decoded from ----
     if s == 57 || s == 58 {
         set("decoded picture header");
         let big: Vec<(usize, usize)> = if s == 57 { crate::mon::ladder::boundary_dims(&mut rng, false) } else { vec![] };
         for i in 0..ctx.n(400, 20000) + big.len() as u64 {
-            let (flavour, w, h) = if (i as usize) < big.len() { (Flavour::Sor((i % 2) as u8), big[i as usize].0, big[i as usize].1) } else { gen_flavour_and_size(&mut rng, 40, false) };
+            let (flavour, w, h) = if (i as usize) < big.len() {
+                (Flavour::Sor((i % 2) as u8), big[i as usize].0, big[i as usize].1)
+            } else if i % 6 == 5 {
+                // sizes that have a size code of their own: the same size can then be spelled in three ways
+                let (w, h) = *rng.pick(&[(352usize, 288usize), (176, 144), (128, 96), (320, 240), (160, 120)]);
+                (Flavour::Sor((i % 2) as u8), w, h)
+            } else {
+                gen_flavour_and_size(&mut rng, 40, false)
+            };
             let cfg = if (i as usize) < big.len() { crate::mon::ladder::cfg_for(&mut rng, flavour, w, h, 0) } else { gen_cfg(&mut rng, flavour, w, h) };
             let pic = if (i as usize) < big.len() { crate::mon::ladder::large_intra(&mut rng, &cfg) } else { gen_intra(&mut rng, &cfg) };
             if (i as usize) < big.len() {
@@ -759,6 +833,9 @@ fn shard(ctx: &Ctx, s: usize, n_random: u64, thorough: bool, rep: &mut Report) {
                 };
                 cfg.quant = 1 + rng.below(31) as u8;
                 cfg.deblock_flag = rng.chance(1, 2);
+                // the size may be spelled differently from picture to picture (size code of its own, 8-bit or 16-bit fields)
+                cfg.prefer_fixed_size_code = rng.chance(1, 2);
+                cfg.force16 = flavour.sorenson() && rng.chance(1, 3);
                 let kind = rng.below(3);
                 let pic = if kind == 0 {
                     if flavour != Flavour::StdFixed && rng.chance(1, 2) {
@@ -780,6 +857,11 @@ fn shard(ctx: &Ctx, s: usize, n_random: u64, thorough: bool, rep: &mut Report) {
                     Outcome::Ok => {}
                     Outcome::Err(k) if formatless => {
                         rep.violation(format!("decoded-size/history/format-in-force-lost/{}", k), format!("picture {} of a history does not restate its format ({}x{} is in force) and is rejected with {}", step + 1, w, h, k), coords());
+                        break;
+                    }
+                    Outcome::Err(k) if kind != 0 => {
+                        // a predicted picture of the size in force, whatever way that size is spelled in its header
+                        rep.violation(format!("decoded-size/history/same-size-picture-rejected/{}", k), format!("picture {} of a history states {}x{} (as {:?}), the size of its reference, and is rejected with {}", step + 1, w, h, match &pic.hdr { Hdr::Sor(hh) => format!("{:?}", hh.size), Hdr::Std(_) => "custom format".to_string() }, k), coords());
                         break;
                     }
                     o => {
